@@ -24,7 +24,18 @@ def is_observer(f: FuncInfo) -> bool:
         return True
     # a name of the rendering family, and the signature of a renderer: (self) or (self, ..., ctx, ...); a method that is
     # handed tables to exchange or terms to add is not an observer whatever it is called
-    return bool(_OBS_RE.match(f.name)) and ("ctx" in f.params or "ctx" in f.kwonly or len(f.params) <= 1)
+    return bool(_OBS_RE.match(f.name)) and (has_ctx_param(f) or len(f.params) <= 1)
+
+
+def has_ctx_param(f: FuncInfo) -> bool:
+    """a rendering-context parameter: named ctx / <something>_ctx, or annotated SqlContext"""
+    a = f.node.args
+    for p in list(a.posonlyargs) + list(a.args) + list(a.kwonlyargs):
+        if p.arg == "ctx" or p.arg.endswith("_ctx"):
+            return True
+        if p.annotation is not None and "SqlContext" in ast.unparse(p.annotation):
+            return True
+    return False
 
 
 def observers(program: Program) -> list[tuple[FuncInfo, ClassInfo | None]]:
@@ -124,3 +135,16 @@ def api_name(c: ClassInfo, f: FuncInfo) -> str:
                     return n
     return f.name
 
+
+
+def is_module_function(program: Program, qual: str) -> bool:
+    """qualified name of a module-level function (`utils.format_quotes`, `queries._cte_sql`) rather than of a method:
+    findings inside such helpers are attributed to the method that calls them, so that moving a piece of a renderer
+    into a helper function does not rename the finding"""
+    if "." not in qual:
+        return True
+    memo = program.__dict__.setdefault("_is_module_function", {})
+    head = qual.rsplit(".", 1)[0]
+    if head not in memo:
+        memo[head] = program.find_cls(head) is None
+    return memo[head]
